@@ -17,6 +17,7 @@ import (
 )
 
 func init() {
+	vRegister("zzC13WeatherGap", func(a []int) { zzC13WeatherGap(a[0]) })
 	vRegister("zzC04ReadMulti", func(a []int) { zzC04ReadMulti(a[0], a[1], a[2]) })
 	vRegister("zzC04ReadYearFile", func(a []int) { zzC04ReadYearFile(a[0], a[1]) })
 	vRegister("zzC04ReadYearFilesInTurn", func(a []int) { zzC04ReadYearFilesInTurn(a[0], a[1]) })
@@ -112,7 +113,15 @@ func zzWWind(x float64) float64 {
 }
 
 // numeric tokens of record i
-func zzTok(name string, i int) string { return vFloatText(name, i) }
+func zzTok(name string, i int) string {
+	if zzTokGap != "" && zzTokGap == fmt.Sprintf("%s/%d", name, i) {
+		return "-99.9" // the "no value" sentinel stands in the file
+	}
+	return vFloatText(name, i)
+}
+
+// zzTokGap names one (variable, record) whose value is missing in the files of the current harness
+var zzTokGap string
 
 const (
 	zzCSV = 1
@@ -401,4 +410,79 @@ func zzC04ReadYearFilesInTurn(n1, n2 int) {
 		vAssert("C04.yearfiles.second_year_values", g.TEMP[k] == vFloat("tavg", i) && g.REGEN[k] == zzWReg(vFloat("prec", i)) && g.RAD[k] == zzWRad(vFloat("rad", i)) && g.WIND[k] == zzWWind(vFloat("wind", i)))
 	}
 	vObserveInt("jtag", g.JTAG)
+}
+
+// ---- C13 / C04: a missing optional value (the "no value" sentinel in the file) on the middle one of three days is
+// filled by the mean of the adjacent days, and identically in every layout that carries the variable.
+// which: 0 mean temperature (yearly file and multi-year CSV), 1 saturation deficit, 2 sunshine duration (all three)
+func zzC13WeatherGap(which int) {
+	dates := []zzWDate{{2004, 1, 1, 1}, {2004, 1, 2, 2}, {2004, 1, 3, 3}}
+	recs := []int{0, 1, 2}
+	name := []string{"tavg", "verd", "sunh"}[which]
+	defer zzWCleanup()
+	defer func() { zzTokGap = "" }()
+	zzWSensible(3)
+	for i := range dates {
+		if which != 0 {
+			vAssume(vFloat("tavg", i) == (vFloat("tmax", i)+vFloat("tmin", i))/2)
+		}
+		vAssume(vFloat("tmin", i) <= vFloat("tmax", i))
+		vAssume(vFloat("et0", i) >= 0 && vFloat("et0", i) <= 100)
+		vAssume(vFloat("verd", i) > 0)
+	}
+	zzTokGap = fmt.Sprintf("%s/%d", name, 1)
+	alt, windhi := vFloat("alt"), vFloat("windhi")
+	layouts := 3
+	if which == 0 {
+		layouts = 2 // the day-of-year layout has no mean temperature column
+	}
+	var res [3]zzWYearState
+	for f := 0; f < layouts; f++ {
+		numHeader := 3
+		if f == zzCZ {
+			numHeader = 1
+		}
+		g, hp, cfg := zzWSetup(numHeader)
+		g.ALTI, g.WINDHI = alt, windhi
+		var err error
+		var s WeatherDataShared
+		switch f {
+		case 0:
+			path := zzWPut("Y.txt", zzWYearFile(recs, func(k int) string { return fmt.Sprintf("%d", k+1) }))
+			s = NewWeatherDataShared(1, 400)
+			err = WetterK(path, 2004, g, &s, hp, cfg)
+		case zzCSV:
+			path := zzWPut("W1.csv", zzWMultiFile(zzCSV, 0, dates, true))
+			s = NewWeatherDataShared(1, 400)
+			err = ReadWeatherCSV(path, 2004, g, &s, hp, cfg)
+		case zzCZ:
+			path := zzWPut("W2.csv", zzWMultiFile(zzCZ, 0, dates, false))
+			s = NewWeatherDataShared(1, 400)
+			err = ReadWeatherCZ(path, 2004, g, &s, hp, cfg)
+		}
+		vAssert("C13.gap.file_accepted", err == nil)
+		res[f] = zzWLoad(g, &s, 2004, 3)
+		vAssert("C13.gap.year_found", !res[f].err)
+		var got, want float64
+		switch which {
+		case 0:
+			got, want = res[f].temp[1], (vFloat("tavg", 0)+vFloat("tavg", 2))/2
+		case 1:
+			got, want = res[f].verd[1], (vFloat("verd", 0)+vFloat("verd", 2))/2
+		default:
+			got, want = res[f].sund[1], (vFloat("sunh", 0)+vFloat("sunh", 2))/2
+		}
+		vAssert("C04.gap.missing_value_is_mean_of_adjacent_days", got == want)
+	}
+	for f := 1; f < layouts; f++ {
+		a, b := res[0], res[f]
+		same := a.jtag == b.jtag
+		for k := 0; k < 3; k++ {
+			same = same && a.temp[k] == b.temp[k] && a.tmin[k] == b.tmin[k] && a.tmax[k] == b.tmax[k] && a.rh[k] == b.rh[k] && a.rad[k] == b.rad[k] &&
+				a.wind[k] == b.wind[k] && a.regen[k] == b.regen[k] && a.sund[k] == b.sund[k] && a.verd[k] == b.verd[k]
+		}
+		vAssert("C13.gap.same_daily_values_in_every_layout", same)
+	}
+	vObserve("filled", res[1].temp[1])
+	vCover("C13.gap.cover")
 }
